@@ -112,7 +112,7 @@ func isNarrowing(from, to types.Type) bool {
 	return lo1.Cmp(lo2) < 0 || hi1.Cmp(hi2) > 0
 }
 
-func ruleWIRE(w *World, r *Report) {
+func ruleWIRE(w *World, r *Report, only ...string) {
 	r.rule("WIRE", ruleWIREText)
 	if w.GOARCH == "386" {
 		intBits = 32
@@ -130,6 +130,21 @@ func ruleWIRE(w *World, r *Report) {
 	for _, fn := range w.funcsInPkgs("par1", "par2") {
 		if !readerFns[fn] {
 			continue
+		}
+		if len(only) > 0 {
+			top := fn
+			for top.Parent() != nil {
+				top = top.Parent()
+			}
+			keep := false
+			for _, o := range only {
+				if shortName(top) == o {
+					keep = true
+				}
+			}
+			if !keep {
+				continue
+			}
 		}
 		rc := &rangeCtx{memo: map[ssa.Value]*ival{}, busy: map[ssa.Value]bool{}}
 		cnt := map[string]int{}
@@ -277,7 +292,11 @@ func ruleWIRE(w *World, r *Report) {
 		}
 	}
 	r.stat("wire_sinks", nSinks)
-	r.floor("WIRE", "wire-integer sinks (conversions, allocation sizes, slice bounds, divisors)", nSinks, 9)
+	fl := 9
+	if len(only) > 0 {
+		fl = 1
+	}
+	r.floor("WIRE", "wire-integer sinks (conversions, allocation sizes, slice bounds, divisors)", nSinks, fl)
 }
 
 // lenGuard: some dominating comparison relates an image of `bound` to len/cap of
